@@ -86,7 +86,7 @@ Callback::Listener::~Listener()
       {
         Callback::Emitter::SignalData& signalData = *it;
         for(List<Callback::Emitter::Slot>::Iterator i = signalData.slots.begin(); i != signalData.slots.end(); ++i)
-          if(i->receiver == this && i->slot == signalData1.slot)
+          if(i->receiver == this && i->slot == signalData1.slot && i->state != Callback::Emitter::Slot::disconnected)
           {
             if(signalData.activation)
             {
@@ -132,7 +132,7 @@ void Callback::disconnect(Callback::Emitter* emitter, const MemberFuncPtr& signa
 
   Callback::Emitter::SignalData& signalData = *it;
   for(List<Callback::Emitter::Slot>::Iterator i = signalData.slots.begin(); i != signalData.slots.end(); ++i)
-    if(i->receiver == receiver && i->slot == slot)
+    if(i->receiver == receiver && i->slot == slot && i->state != Callback::Emitter::Slot::disconnected)
     {
       if(signalData.activation)
       {
